@@ -111,11 +111,13 @@ def _prune(keep: Path) -> None:
 
 def _seed_inputs() -> list[bytes]:
     def perm(kernel, f32, hwc, rows, cols, entries, real_only=0):
-        b = [kernel, f32, hwc - 1, len(rows), len(cols), *rows, *cols, 0, real_only]
+        b = [kernel, f32, hwc, len(rows), len(cols), *rows, *cols, 0, real_only]
         return bytes(b + list(entries))
 
     seeds = [
         perm(0, 0, 4, [1, 1], [1, 1], [1, 2, 3, 4, 5, 6, 7, 8]),
+        perm(0, 0, 0, [2, 1], [1, 2], [1, 2, 3, 4, 5, 6, 7, 8]),   # hardware_concurrency() == 0
+        perm(1, 0, 0, [2, 1], [2, 2], [1, 2, 3, 4, 5, 6, 7, 8]),
         perm(0, 0, 16, [17, 17], [17, 17], [1, 0, 1, 0, 1, 0, 1, 0]),
         perm(0, 0, 16, [18, 18], [18, 18], [1, 0, 1, 0, 1, 0, 1, 0]),
         perm(0, 1, 3, [19, 19], [20, 18], [3, 4, 5, 6, 1, 0, 2, 9]),
